@@ -303,6 +303,8 @@ class PathSum:
                 out.append(f"{e[1]} = {text(e[2])}")
             elif e[0] == "call" and not e[1].startswith("_logger."):
                 out.append(f"call {e[1]}")
+            elif e[0] == "loop":
+                out.append(f"<loop at {e[1]}, stepped over>")
         tail = self.exit + (f" {text(self.value)}" if self.value is not None else "")
         return out + [tail]
 
@@ -402,8 +404,14 @@ class Exec:
     MAX_PATHS = 3000
 
     def __init__(self, prog: Program, fn: FuncInfo, max_depth: int = 3,
-                 extra_inline: Iterable[str] = (), bool_attrs: Iterable[str] = (), inline_all: bool = False) -> None:
+                 extra_inline: Iterable[str] = (), bool_attrs: Iterable[str] = (), inline_all: bool = False,
+                 lenient: bool = False) -> None:
         self.prog = prog
+        # lenient: a loop the executor does not model is stepped over as an opaque statement (everything it may have
+        # rebound or mutated becomes an unknown `LOOPn<name>`; a loop that can return is still refused), a `with`
+        # is its body, and unpacking a value that is not a display yields `<value>[i]`.  For rules that only ask
+        # how a value that *reaches* a call was built, in functions that also do unrelated work.
+        self.lenient = lenient
         self.fn = fn
         self.max_depth = max_depth
         self.extra_inline = set(extra_inline)
@@ -764,6 +772,21 @@ class Exec:
             self._guard(todo)
         return out
 
+    def _opaque_loop(self, s: ast.stmt, st: State) -> State:
+        """(lenient) Step over a loop that is not modelled: what it may have rebound or mutated is unknown
+        afterwards.  A loop that can leave the function is refused (its paths would be lost)."""
+        for n in ast.walk(s):
+            if isinstance(n, (ast.Return, ast.FunctionDef, ast.AsyncFunctionDef, ast.Lambda, ast.ClassDef)):
+                raise Unsupported(f"loop at line {getattr(s, 'lineno', '?')} that returns / defines functions")
+        names, touches = _opaque_loop_names(s)
+        st.havoc += 1
+        for n in sorted(names):
+            st.locals[n] = ast.Name(id=f"LOOP{st.havoc}<{n}>", ctx=ast.Load())
+        if touches:
+            st.attrs.clear()
+        st.events.append(("loop", f"line {getattr(s, 'lineno', '?')}", s))
+        return st
+
     def _guard(self, res: list[Any]) -> None:
         if len(res) > self.MAX_PATHS:
             raise Unsupported("too many paths")
@@ -795,6 +818,10 @@ class Exec:
             elts = targets[0].elts
             out = []
             for s, v in self._value(val, st, depth):
+                if self.lenient and not isinstance(v, (ast.Tuple, ast.List)) and not any(
+                        isinstance(x, ast.Starred) for x in elts):
+                    v = ast.Tuple(elts=[ast.Subscript(value=copy.deepcopy(v), slice=ast.Constant(i), ctx=ast.Load())
+                                        for i in range(len(elts))], ctx=ast.Load())
                 if not isinstance(v, (ast.Tuple, ast.List)) or len(v.elts) != len(elts) or any(
                         isinstance(x, ast.Starred) for x in list(elts) + list(v.elts)):
                     raise Unsupported("unpacking of a value that is not a tuple display of the same length")
@@ -872,8 +899,20 @@ class Exec:
         if isinstance(s, (ast.For,)):
             as_if = _search_loop_as_if(s, self.expr_is_pure)
             if as_if is None:
+                if self.lenient:
+                    return [(self._opaque_loop(s, st), None)]
                 raise Unsupported(f"loop at line {getattr(s, 'lineno', '?')}")
             return self._stmt(as_if, st, mode, depth)
+        if self.lenient and isinstance(s, (ast.AsyncFor, ast.While)):
+            return [(self._opaque_loop(s, st), None)]
+        if self.lenient and isinstance(s, (ast.With, ast.AsyncWith)):
+            for item in s.items:
+                self._record_calls(self._res(item.context_expr, st), st)
+                for n in ast.walk(item.optional_vars) if item.optional_vars is not None else []:
+                    if isinstance(n, ast.Name):
+                        st.havoc += 1
+                        st.locals[n.id] = ast.Name(id=f"WITH{st.havoc}<{n.id}>", ctx=ast.Load())
+            return [(s3, None if ex[0] == "fall" else ex) for s3, ex in self._block(s.body, st, mode, depth)]
         if isinstance(s, ast.If) and _only_logs(s, self.expr_is_pure):
             return [(st, None)]  # reporting only: neither outcome changes state, calls or results
         if isinstance(s, ast.If):
@@ -900,6 +939,28 @@ class Exec:
                 out.append((s2, None if c else ("raise", None)))
             return out
         raise Unsupported(f"statement {type(s).__name__} at line {getattr(s, 'lineno', '?')}")
+
+
+def _opaque_loop_names(s: ast.stmt) -> tuple[set[str], bool]:
+    """(local names a loop may rebind or mutate, whether it may change attributes of objects): names stored, roots of
+    stored / deleted attribute and subscript targets, receivers and arguments of calls that may have effects."""
+    names: set[str] = set()
+    touches = False
+    for n in ast.walk(s):
+        if isinstance(n, ast.Name) and isinstance(n.ctx, (ast.Store, ast.Del)):
+            names.add(n.id)
+        elif isinstance(n, (ast.Attribute, ast.Subscript)) and isinstance(n.ctx, (ast.Store, ast.Del)):
+            names.update(_root_names(n))
+            touches = True
+        elif isinstance(n, ast.Call) and not _is_pure_call(n):
+            touches = True
+            for a in list(n.args) + [k.value for k in n.keywords] + (
+                    [n.func.value] if isinstance(n.func, ast.Attribute) else []):
+                a = a.value if isinstance(a, ast.Starred) else a
+                names.update(_root_names(a))
+        elif isinstance(n, (ast.Await, ast.Yield, ast.YieldFrom)):
+            touches = True
+    return names, touches
 
 
 def _replace_child(root: ast.AST, old: ast.AST, new: ast.AST) -> None:
